@@ -342,7 +342,17 @@ func (s *Server) keepaliveHandler(ctx context.Context) {
 }
 
 func (s *Server) NewClientConn(conn io.ReadWriteCloser, remoteAddr string) *ClientConn {
-	clientConn := &ClientConn{
+	clientConn := s.newUnregisteredClientConn(conn, remoteAddr)
+
+	s.ClientMgr.Add(clientConn)
+
+	return clientConn
+}
+
+// newUnregisteredClientConn builds a ClientConn that is not yet known to the client manager, so that a
+// connection only becomes visible to other users (user list, notifications) once it has authenticated.
+func (s *Server) newUnregisteredClientConn(conn io.ReadWriteCloser, remoteAddr string) *ClientConn {
+	return &ClientConn{
 		Icon:       []byte{0, 0}, // TODO: make array type
 		Connection: conn,
 		Server:     s,
@@ -350,10 +360,6 @@ func (s *Server) NewClientConn(conn io.ReadWriteCloser, remoteAddr string) *Clie
 
 		ClientFileTransferMgr: NewClientFileTransferMgr(),
 	}
-
-	s.ClientMgr.Add(clientConn)
-
-	return clientConn
 }
 
 func sendBanMessage(rwc io.Writer, message string) {
@@ -409,8 +415,7 @@ func (s *Server) handleNewConnection(ctx context.Context, rwc io.ReadWriteCloser
 		return fmt.Errorf("error writing login transaction: %w", err)
 	}
 
-	c := s.NewClientConn(rwc, remoteAddr)
-	defer c.Disconnect()
+	c := s.newUnregisteredClientConn(rwc, remoteAddr)
 
 	encodedPassword := clientLogin.GetField(FieldUserPassword).Data
 	c.Version = clientLogin.GetField(FieldVersion).Data
@@ -456,6 +461,11 @@ func (s *Server) handleNewConnection(ctx context.Context, rwc io.ReadWriteCloser
 	if c.Authorize(AccessDisconUser) {
 		c.Flags.Set(UserFlagAdmin, 1)
 	}
+
+	// Only an authenticated connection is registered: a rejected login is never listed, never gets a
+	// user ID and causes no "user left" notification.
+	s.ClientMgr.Add(c)
+	defer c.Disconnect()
 
 	s.outbox <- c.NewReply(&clientLogin,
 		NewField(FieldVersion, []byte{0x00, 0xbe}),
